@@ -1,3 +1,120 @@
-/-! # C13 — property theorems (stub: nothing stated yet) -/
+import SR.Proofs.Checker.Bfs
+import SR.Checker.Sched
+import SR.Checker.Graph
+/-!
+# C13 — single-threaded BFS evaluates by depth and returns shortest witnesses
+
+Property theorems only; invariant in `SR/Proofs/Checker/Bfs.lean`.  `FifoRun`: a run of the checker machine that
+obeys the discipline of bfs.rs with one worker (pop only index 0 and only when idle, push at the other end, one
+worker, no stale reads, stops only between jobs).  The BFS scheduler `runSingle P .bfs` is such a run
+(`C13_scheduler_is_fifo`), and the real single-threaded `spawn_bfs` is compared with it byte for byte on every run.
+Hypotheses: no `target_max_depth` (with a depth limit the order still holds but deeper states are cut off), and a
+state identity that is injective on the reachable states.  "Distance" is expressed directly: a visited path is no
+longer than any other in-boundary path from an initial state to the same state.
+-/
 namespace SR.C13
+open SR SR.Checker
+
+variable {σ κ α : Type} [DecidableEq κ] (P : Params σ κ α)
+
+/-- **order**: the visited paths (oldest first) have non-decreasing lengths, and each is a shortest in-boundary
+    path from an initial state to its last state — states are evaluated in non-decreasing distance. -/
+theorem C13_order (hnd : P.cfg.maxDepth = none)
+    (hinj : ∀ a b, P.M.Reach a → P.M.Reach b → P.key a = P.key b → a = b)
+    (cs : List Choice) (hf : FifoRun P (init P.M P.props P.key) cs) :
+    ((run P cs).visits.reverse.map List.length).Pairwise (· ≤ ·) ∧
+    (∀ p ∈ (run P cs).visits, ∀ q, P.M.IsPath q → q.getLast? = p.getLast? → p.length ≤ q.length) := by
+  have hb := binv_run (P := P) hnd hinj cs hf
+  refine ⟨?_, hb.shortVis⟩
+  rw [List.map_reverse, List.pairwise_reverse]
+  exact hb.visSorted.imp (fun h => h)
+
+/-- **shortest witnesses**: the path reported for an always- or sometimes-property has the minimum number of
+    states (hence transitions) among all in-boundary paths from an initial state to a witnessing state. -/
+theorem C13_shortest (hnd : P.cfg.maxDepth = none)
+    (hinj : ∀ a b, P.M.Reach a → P.M.Reach b → P.key a = P.key b → a = b)
+    (cs : List Choice) (hf : FifoRun P (init P.M P.props P.key) cs) :
+    ∀ e ∈ (run P cs).disc, ∀ pr, P.props[e.1]? = some pr → pr.exp ≠ .eventually →
+      ∀ q t, P.M.IsPath q → q.getLast? = some t → Wit pr t → e.2.length ≤ q.length :=
+  (binv_run (P := P) hnd hinj cs hf).shortDisc
+
+/-! ### the BFS scheduler obeys the discipline -/
+
+theorem fifoRun_append (s : St σ κ) (cs ds : List Choice) :
+    FifoRun P s (cs ++ ds) ↔ FifoRun P s cs ∧ FifoRun P (runFrom P s cs) ds := by
+  induction cs generalizing s with
+  | nil => simp [FifoRun, runFrom]
+  | cons c cs ih =>
+    simp only [List.cons_append, FifoRun, ih, runFrom, List.foldl_cons, and_assoc]
+
+theorem fifoRun_dropJobs (s : St σ κ) (n : Nat) : FifoRun P s (List.replicate n (.dropJob 0)) := by
+  induction n generalizing s with
+  | zero => trivial
+  | succ n ih => exact ⟨trivial, ih _⟩
+
+theorem C13_scheduler_is_fifo (fuel : Nat) (s : St σ κ) (bl : Nat) :
+    FifoRun P s (schedule P .bfs fuel s bl) := by
+  induction fuel generalizing s bl with
+  | zero => trivial
+  | succ fuel ih =>
+    unfold schedule
+    cases hn : schedNext P .bfs s bl with
+    | none => trivial
+    | some r =>
+      obtain ⟨cs, bl'⟩ := r
+      simp only
+      rw [fifoRun_append]
+      refine ⟨?_, ih _ _⟩
+      unfold schedNext at hn
+      split at hn
+      · rename_i a ha
+        split at hn
+        · split at hn
+          · cases hn; exact ⟨⟨rfl, rfl⟩, trivial⟩
+          · split at hn <;> (cases hn; exact ⟨rfl, trivial⟩)
+        · cases hn; exact ⟨⟨rfl, by decide⟩, trivial⟩
+        · cases hn; exact ⟨rfl, trivial⟩
+      · rename_i hnone
+        have hact : s.active = [] := by
+          cases h : s.active with
+          | nil => rfl
+          | cons x xs => rw [h] at hnone; simp at hnone
+        split at hn
+        · cases hn
+        · rename_i hst
+          have hst' : s.stopped = false := by cases h : s.stopped <;> simp_all
+          split at hn
+          · split at hn
+            · cases hn; exact ⟨hact, fifoRun_dropJobs P _ _⟩
+            · split at hn
+              · cases hn; exact ⟨hact, fifoRun_dropJobs P _ _⟩
+              · split at hn
+                · cases hn
+                · cases hn; trivial
+          · split at hn
+            · cases hn; trivial
+            · cases hn; exact ⟨⟨rfl, hact, hst'⟩, trivial⟩
+
+/-- the theorems instantiated for the single-threaded BFS executable -/
+theorem C13_bfs_single (hnd : P.cfg.maxDepth = none)
+    (hinj : ∀ a b, P.M.Reach a → P.M.Reach b → P.key a = P.key b → a = b) (fuel : Nat) :
+    (((runSingle P .bfs fuel).visits.reverse.map List.length).Pairwise (· ≤ ·)) ∧
+    (∀ p ∈ (runSingle P .bfs fuel).visits, ∀ q, P.M.IsPath q → q.getLast? = p.getLast? → p.length ≤ q.length) ∧
+    (∀ e ∈ (runSingle P .bfs fuel).disc, ∀ pr, P.props[e.1]? = some pr → pr.exp ≠ .eventually →
+      ∀ q t, P.M.IsPath q → q.getLast? = some t → Wit pr t → e.2.length ≤ q.length) := by
+  have hf := C13_scheduler_is_fifo P fuel (init P.M P.props P.key) blockSize
+  have h1 := C13_order P hnd hinj _ hf
+  exact ⟨h1.1, h1.2, C13_shortest P hnd hinj _ hf⟩
+
+/-! ### Non-vacuity: a graph with a join reached by a long and a short path; BFS reports the short one. -/
+
+def exGraph : Graph :=
+  { n := 5, init := [0], adj := [[some 1, some 3], [some 2], [some 4], [some 4], []],
+    bnd := [true, true, true, true, true] }
+def exParams : Params Nat Nat Nat :=
+  { M := exGraph.toSys, props := [{ exp := .sometimes, cond := fun s => s == 4 }, { exp := .always, cond := fun _ => true }],
+    key := id, cfg := {}, finishMatches := fun d => d.length == 2 }
+example : (runSingle exParams .bfs 300).disc = [(0, [0, 3, 4])] := by decide
+example : (runSingle exParams .bfs 300).visits.reverse.map List.length = [1, 2, 2, 3, 3] := by decide
+
 end SR.C13
